@@ -196,6 +196,19 @@ class Check:
     # ---- step 3: harness + driver -------------------------------------------
     def build_harness(self):
         t0 = time.time()
+        # cargo decides freshness by mtime; when repo-link is re-pointed (scratch worktree <-> /repo) the
+        # sources of the new target may be OLDER than the last build, so force the fuel crates to rebuild.
+        target = os.path.realpath(os.path.join(VERIF, "repo-link"))
+        stamp = os.path.join(WORK, "repo_target")
+        last = open(stamp).read().strip() if os.path.exists(stamp) else None
+        if last is not None and last != target:
+            import glob
+            for d in glob.glob(os.path.join(HARNESS, "target", "release", ".fingerprint", "fuel-*")) + \
+                     glob.glob(os.path.join(HARNESS, "target", "release", ".fingerprint", "fv-harness-*")):
+                shutil.rmtree(d, ignore_errors=True)
+            log("repo-link target changed (%s -> %s): forcing rebuild of the fuel crates" % (last, target))
+        with open(stamp, "w") as f:
+            f.write(target)
         rc, out, dt = run(["cargo", "build", "--release", "--offline"], cwd=HARNESS, timeout=3000)
         self.timings["cargo_s"] = round(time.time() - t0, 1)
         self.harness_ok = rc == 0
